@@ -988,6 +988,9 @@ def is_pure_callable(f):
     owner = getattr(f, '__self__', None)
     if owner is not None and type(owner).__module__ == 'datetime' and not isinstance(owner, type):
         return True          # methods of immutable datetime / timedelta values
+    if isinstance(owner, type) and owner.__module__ == 'datetime' and getattr(f, '__name__', '') in (
+            'strptime', 'fromisoformat', 'fromtimestamp', 'utcfromtimestamp'):
+        return True          # pure constructors of datetime values from concrete arguments (NOT now()/today())
     if owner is not None and type(owner).__module__ in ('_hashlib', '_md5', '_sha1', '_sha2', '_blake2'):
         return True          # update / hexdigest of a hash object created on this path (concrete bytes)
     if mod in ('hashlib', '_hashlib', '_md5'):
